@@ -1,9 +1,17 @@
 /-
 C16 — internalising refs yields a self-contained, equivalent document.
-Property theorems only (models: KinModel/RefName.lean, KinModel/Internalize.lean).
+Property theorems only (models: KinModel/RefName.lean — the name resolver; KinModel/Internalize.lean — the descent of
+InternalizeRefs on the abstraction of a loaded document; helper lemmas: Lemmas/C16Descent.lean, C16Inv.lean, C16Table.lean,
+concrete heaps: Lemmas/C16Heaps.lean).
+Sections: resolver loops / totality / alphabet / injectivity (partial) and collision witnesses; translator tables;
+the flag; the document after internalisation — (i) all_refs_internal, (ii) rewritten_refs_resolve_partial,
+(iii) positions_outside_external_unchanged + root_components_kept, spec_holds_partial and the completeness of the
+exclusion classes; witnesses of every open finding, regressions of the repaired ones, non-vacuity examples.
 -/
 import KinModel.Internalize
 import KinModel.Lemmas.C16Table
+import KinModel.Lemmas.C16Inv
+import KinModel.Lemmas.C16Heaps
 namespace KinModel.RefName
 
 /-! ### the resolver's loops end for every input (the repair of #18 made this provable) -/
@@ -217,9 +225,9 @@ theorem sanitize_char_injective (a b : Char) (ha : plainChar a = true) (hb : pla
   by_cases ia : identChar a = true <;> by_cases ib : identChar b = true
   · simpa [ia, ib] using h
   · simp only [ia, ib, if_true, Bool.false_eq_true, if_false] at h
-    simp [ia, h] at ha
+    simp [h] at ha
   · simp only [ia, ib, if_true, Bool.false_eq_true, if_false] at h
-    simp [ib, ← h] at hb
+    simp [← h] at hb
   · have ea : a = '/' := by simpa [ia] using ha
     have eb : b = '/' := by simpa [ib] using hb
     rw [ea, eb]
@@ -296,9 +304,10 @@ theorem witness_self_match :
       (wholeFile "responses" "ext.json" "ext.json") = .name "T1".toList false := by
   decide
 
-/-- when the recorded RefPath is the root document itself and the reference has no fragment (what the loader records
-for whole-document link/example/securityScheme references made in the root), the generated name is EMPTY -/
-theorem witness_empty_name :
+/-- a reference whose recorded RefPath is the root document itself, without fragment, is given the EMPTY name. Until
+0a3c233 the loader recorded exactly that for whole-document link/example/securityScheme references made in the root
+(former finding F-C16-4; `regression_whole_document_link_name` below); the resolver itself is unchanged -/
+theorem resolver_empty_name_for_root_path :
     defaultName (rootAt "openapi.json") (wholeFile "links" "common/l.json" "openapi.json") = .name [] false := by
   decide
 
@@ -324,25 +333,316 @@ theorem internalized_all_recognised : KinModel.Gen.internalized.all (fun r => !K
 theorem internalized_matches_model : KinModel.Gen.internalized = KinModel.Gen.modelDescent := by
   decide
 
+/-- **every field of the document types through which a reference position can be reached from `openapi3.T` is read by
+the descent of InternalizeRefs** — except `Parameter.Examples` (finding F-C16-7). The table is regenerated from the type
+declarations and from internalize_refs.go on every run: a new ref-bearing field the descent does not visit, or a visit
+dropped from the descent, breaks this obligation. -/
+theorem ref_fields_all_read_partial : KinModel.Gen.c16RefFields.all KinModel.Gen.rfOK = true := by
+  decide
+
+/-- F-C16-7 in the table: the field is there, and not read -/
+theorem witness_ref_field_not_read :
+    KinModel.Gen.c16RefFields.contains (KinModel.Gen.RFRow.field "Parameter" "Examples" false) = true := by
+  decide
+
 /-! ### the parent-is-external flag -/
 section Flag
 open KinModel.Internalize
 
 /-- with the parent-is-external flag every non-empty reference is treated as external -/
-theorem isExternalRef_parent (r : String) : isExternalRef r true = (r != "") := by
+theorem isExternalRef_parent (r : Str) : isExternalRef r true = !r.isEmpty := by
   simp [isExternalRef]
 
 /-- an empty $ref is never external, WHATEVER the flag: `derefPaths` computes
 `pathIsExternal := isExternalRef(ops.Ref, parentIsExternal)` and thereby drops the flag for every inline path item of
 an external callback (finding F-C16-5) -/
-theorem witness_flag_dropped : isExternalRef "" true = false := by
+theorem witness_flag_dropped : isExternalRef [] true = false := by
   simp [isExternalRef]
 
 /-- a reference that is not under `#/components/` is external also without the flag (e.g. `#/paths/~1x/…`, `x.json`) -/
-theorem isExternalRef_foreign (r : String) (p : Bool) (h1 : r ≠ "") (h2 : r.startsWith "#/components/" = false) :
+theorem isExternalRef_foreign (r : Str) (p : Bool) (h1 : r ≠ []) (h2 : hasCompPrefix r = false) :
     isExternalRef r p = true := by
   simp [isExternalRef, h1, h2]
 
 end Flag
+
+/-! ### the document after internalisation (model `KinModel.Internalize`, for ALL loaded documents)
+
+`internalize h = .done s`: `h` is the abstraction of a loaded document, `s` the final state of the descent — the `$ref` text
+of every reference cell (`s.refs`), of every path item (`s.pirefs`), the components (`s.comps`) and the log of what each
+add<Kind>ToSpec call did. Every finished run is a sequence of primitive steps (`internalize_reach`,
+Lemmas/C16Descent.lean); the theorems below are invariants of those steps (Lemmas/C16Inv.lean). -/
+section Document
+open KinModel.Internalize
+
+theorem run_invText (h : Heap) (s : St) (hd : internalize h = .done s) : InvText s :=
+  Reach.invariant InvText (invText_step h) (internalize_reach h s hd) (invText_init h)
+theorem run_invEmpty (h : Heap) (s : St) (hd : internalize h = .done s) : InvEmpty h s :=
+  Reach.invariant (InvEmpty h) (invEmpty_step h) (internalize_reach h s hd) (invEmpty_init h)
+theorem run_invShape (h : Heap) (s : St) (hd : internalize h = .done s) : InvShape h s :=
+  Reach.invariant (InvShape h) (invShape_step h) (internalize_reach h s hd) (invShape_init h)
+theorem run_invNames (h : Heap) (s : St) (hd : internalize h = .done s) : InvNames h s :=
+  Reach.invariant (InvNames h) (invNames_step h) (internalize_reach h s hd) (invNames_init h)
+theorem run_invIdent (h : Heap) (s : St) (hd : internalize h = .done s) : InvIdent s :=
+  Reach.invariant InvIdent (invIdent_step h defaultName_ident) (internalize_reach h s hd) (invIdent_init h)
+
+/-- **(i) no reference text points outside the document.** After internalisation every reference cell an
+add<Kind>ToSpec call was made on holds the empty text (the value is written in place) or a text under `#/components/`.
+No hypothesis. (Cells no call is made on — the Examples of parameters and headers — are finding F-C16-7.) -/
+theorem all_refs_internal (h : Heap) (s : St) (hd : internalize h = .done s) :
+    ∀ c ∈ touched s, intText s.refs[c]! = true := run_invText h s hd
+
+/-- every path item the descent entered is inlined (`$ref` cleared) -/
+theorem visited_path_items_inlined (h : Heap) (s : St) (hd : internalize h = .done s) :
+    ∀ p ∈ s.visP, s.pirefs[p]! = [] :=
+  Reach.invariant InvPI (invPI_step h) (internalize_reach h s hd) (invPI_init h)
+
+/-- every text is what was loaded, empty, or `#/components/<collection>/<name>` for a name the resolver returned for
+exactly this cell -/
+theorem final_text_shape (h : Heap) (s : St) (hd : internalize h = .done s) (c : Nat) :
+    s.refs[c]! = [] ∨ s.refs[c]! = origRef h c ∨
+    ∃ ev ∈ s.log, ev.cell = c ∧ ∃ nm, ev.name? = some nm ∧ s.refs[c]! = mkRef (cellOf h c).k nm :=
+  run_invShape h s hd c
+
+/-- **(ii) every rewritten reference resolves to a component holding what the external reference designated.**
+Hypotheses: no name collision was met (¬F-C16-1: whenever the resolver returned a name under which a component existed,
+that component held content of the same class), and the original root components lead to their own values
+(¬F-C16-3). Then for EVERY cell whose text was rewritten, following the new text through the final components ends at
+content of the class the loader had resolved the reference to. -/
+theorem rewritten_refs_resolve_partial (h : Heap) (s : St) (hd : internalize h = .done s) (hk : kindsPlain h = true)
+    (hnc : NameCollision s = false) (hself : SelfRefComponent h s = false)
+    (c : Nat) (hne : s.refs[c]! ≠ []) (hch : s.refs[c]! ≠ origRef h c) :
+    resolvesTo h s 64 s.refs[c]! (valOf h c) = true := by
+  rcases run_invShape h s hd c with h0 | h1 | ⟨ev, hev, hc, nm, hn, hr⟩
+  · exact absurd h0 hne
+  · exact absurd h1 hch
+  · exact named_resolves h s hk (run_invNames h s hd) (run_invIdent h s hd) hnc hself c ev hev hc nm hn hr
+
+/-- under the same hypothesis every name handed out still holds content of the right class in the final document:
+the component table only grows, an entry is overwritten (callbacks) only by content of the same class -/
+theorem names_hold_partial (h : Heap) (s : St) (hd : internalize h = .done s) (hnc : NameCollision s = false)
+    (ev : Ev) (hev : ev ∈ s.log) (nm : Str) (hn : ev.name? = some nm) :
+    Holds h s (cellOf h ev.cell).k nm (valOf h ev.cell) := run_invNames h s hd hnc ev hev nm hn
+
+/-- **distinct targets are not merged** (the last sentence of the property), under the hypothesis that excludes F-C16-1:
+two references that were given the same component name designate content of the same class -/
+theorem same_name_same_content_partial (h : Heap) (s : St) (hd : internalize h = .done s) (hnc : NameCollision s = false)
+    (e1 e2 : Ev) (h1 : e1 ∈ s.log) (h2 : e2 ∈ s.log) (nm : Str) (hn1 : e1.name? = some nm) (hn2 : e2.name? = some nm)
+    (hk : (cellOf h e1.cell).k = (cellOf h e2.cell).k) :
+    ccOf h (valOf h e1.cell) = ccOf h (valOf h e2.cell) := by
+  obtain ⟨a, ha, hca⟩ := run_invNames h s hd hnc e1 h1 nm hn1
+  obtain ⟨b, hb, hcb⟩ := run_invNames h s hd hnc e2 h2 nm hn2
+  rw [hk, hb] at ha
+  cases ha
+  rw [← hca, ← hcb]
+
+/-- **(iii) positions not behind an external reference are unchanged.** A cell that add<Kind>ToSpec never met with the
+parent-is-external flag and whose own text is not external keeps its text (or is cleared: the top level of a root
+component is always written in place). -/
+theorem positions_outside_external_unchanged (h : Heap) (s : St) (hd : internalize h = .done s) (c : Nat)
+    (hq : ∀ ev ∈ s.log, ev.cell = c → ev.pext = false) (hx : isExternalRef (origRef h c) false = false) :
+    s.refs[c]! = origRef h c ∨ s.refs[c]! = [] := by
+  have := Reach.invariant (InvQuiet h) (invQuiet_step h) (internalize_reach h s hd) (invQuiet_init h) c hq
+  rcases this with h0 | h1 | h2
+  · exact Or.inl h0
+  · exact Or.inr h1
+  · rw [hx] at h2; cases h2
+
+/-- (iii) every component the root document had outside `callbacks` is still there, the same entry -/
+theorem root_components_kept (h : Heap) (s : St) (hd : internalize h = .done s) (k nm : Str) (e : Comp)
+    (hk : k ≠ callbacksK) (hl : lookup (initSt h) k nm = some e) : lookup s k nm = some e :=
+  Reach.invariant (InvKept h) (invKept_step h) (internalize_reach h s hd) (invKept_init h) k nm e hk hl
+
+/-- a reference cell the loader left empty stays empty -/
+theorem empty_refs_stay_empty (h : Heap) (s : St) (hd : internalize h = .done s) (c : Nat) (h0 : origRef h c = []) :
+    s.refs[c]! = [] := run_invEmpty h s hd c h0
+
+/-- **The executable spec holds on the final state of every run outside the exclusion classes.** Full-strength statement
+(false: the witnesses below): `internalize h = .done s → specB h s = true`. What holds: if none of the decidable exclusion
+predicates — NameCollision (F-C16-1), SelfRefComponent (F-C16-3), StaleInternalRef (F-C16-5), UnwalkedExample (F-C16-7),
+DiscriminatorMapping (F-C16-8), InlinedCycle (F-C16-9), Unresolved (F-C16-10), and the three that no known input
+satisfies: PathItemLeft, EmptyName, a collection name with a slash — holds, then every reference cell is internal and
+resolves to content of the class it had, every path item is inlined, every discriminator mapping still selects its
+alternative, the document is a finite tree and no component has the empty name. Hence a run on which `specB` fails is in
+at least one class: the classes are complete for the model. -/
+theorem spec_holds_partial (h : Heap) (s : St) (hd : internalize h = .done s)
+    (hk : kindsPlain h = true) (h1 : NameCollision s = false) (h3 : SelfRefComponent h s = false)
+    (h5 : StaleInternalRef h s = false) (h7 : UnwalkedExample h s = false) (h8 : DiscriminatorMapping h s = false)
+    (h9 : InlinedCycle h s = false) (h10 : Unresolved h = false) (hp : PathItemLeft h s = false)
+    (hn : EmptyName h s = false) : specB h s = true := by
+  have hcells : (List.range h.cells.size).all (cellOK h s) = true := by
+    rw [List.all_eq_true]
+    intro c hc
+    have hc' : c < h.cells.size := List.mem_range.mp hc
+    -- what internalisation left unchanged is right already
+    have hun : unchangedBad h s c = false := by
+      by_cases hpx : (pexCells h).contains c = true
+      · unfold UnwalkedExample at h7
+        rw [List.any_eq_false] at h7
+        have := h7 c (by simpa using hpx)
+        simpa using this
+      · unfold StaleInternalRef at h5
+        rw [List.any_eq_false] at h5
+        have := h5 c hc
+        have hpx' : ¬ c ∈ pexCells h := by simpa using hpx
+        have := (by simpa using this : ¬c ∈ pexCells h → unchangedBad h s c = false)
+        exact this hpx'
+    unfold cellOK
+    by_cases hv : (cellOf h c).val < 0
+    · -- never resolved: by ¬Unresolved the text was empty, and stays empty
+      simp only [hv, if_true]
+      have hr0 : (cellOf h c).ref = [] := by
+        unfold Unresolved at h10
+        rw [List.any_eq_false] at h10
+        have := h10 (cellOf h c) (cellOf_mem h c hc')
+        simp only [hv, decide_true, Bool.true_or, Bool.and_true, Bool.not_eq_true', Bool.not_eq_false,
+          List.isEmpty_iff] at this
+        simpa using this
+      have ho : origRef h c = [] := by rw [origRef_eq h c hc']; exact hr0
+      rw [run_invEmpty h s hd c ho, ho]
+      rfl
+    · simp only [hv, if_false]
+      rcases run_invShape h s hd c with h0 | h1' | ⟨ev, hev, hce, nm, hnm, hr⟩
+      · rw [h0]; simp [intText, resolvesTo_nil]
+      · by_cases ho : origRef h c = []
+        · rw [h1', ho]; simp [intText, resolvesTo_nil]
+        · unfold unchangedBad at hun
+          have hoe : (origRef h c).isEmpty = false := by
+            cases hq : origRef h c with
+            | nil => exact absurd hq ho
+            | cons a t => rfl
+          simp only [h1', beq_self_eq_true, hoe, Bool.not_false, Bool.and_self, Bool.true_and, Bool.not_eq_false'] at hun
+          unfold cellOK at hun
+          simp only [hv, if_false] at hun
+          rw [h1'] at hun ⊢
+          exact hun
+      · have := named_resolves h s hk (run_invNames h s hd) (run_invIdent h s hd) h1 h3 c ev hev hce nm hnm hr
+        have hvc : valOf h c = (cellOf h c).val := rfl
+        rw [hvc] at this
+        rw [this, hr, intText_mkRef]
+        rfl
+  have hpis : pisOK h s = true := by simpa [PathItemLeft] using hp
+  have hmap : mapOK h s = true := by simpa [DiscriminatorMapping] using h8
+  have hfin : finiteB h s = true := by simpa [InlinedCycle] using h9
+  have hnames : (namesOK s || !h.validBefore) = true := by
+    unfold EmptyName at hn
+    cases hq : namesOK s <;> cases hw : h.validBefore <;> simp [hq, hw] at hn ⊢
+  unfold specB
+  rw [hcells, hpis, hmap, hfin, hnames]
+  rfl
+
+/-- the same with the hypotheses as one executable predicate (what the driver evaluates) -/
+theorem spec_of_hyps_partial (h : Heap) (s : St) (hd : internalize h = .done s) (hh : hypsB h s = true) :
+    specB h s = true := by
+  unfold hypsB at hh
+  simp only [Bool.and_eq_true, Bool.not_eq_true', Bool.not_eq_eq_eq_not, Bool.not_true] at hh
+  obtain ⟨⟨⟨⟨⟨⟨⟨⟨⟨a1, a2⟩, a3⟩, a4⟩, a5⟩, a6⟩, a7⟩, a8⟩, a9⟩, a10⟩ := hh
+  exact spec_holds_partial h s hd a1 a2 a3 a4 a5 a6 a7 a8 a9 a10
+
+/-- the exclusion classes are complete for the model: a finished run on which the spec fails is in one of them -/
+theorem spec_fails_only_in_a_class (h : Heap) (s : St) (hd : internalize h = .done s) (hf : specB h s = false) :
+    hypsB h s = false := by
+  cases hh : hypsB h s with
+  | false => rfl
+  | true => rw [spec_of_hyps_partial h s hd hh] at hf; cases hf
+
+end Document
+
+/-! ### witnesses (inside each exclusion the model differs from the spec), regressions, non-vacuity
+
+The heaps are the abstractions of the loaded documents of `corpus/C16/*.json` (Lemmas/C16Heaps.lean, generated; the driver
+compares each with what the harness extracts from the real loader on every run). `decide +kernel`: the kernel evaluates
+the model, no axiom. -/
+section Witnesses
+open KinModel.Internalize KinModel.Internalize.Heaps
+
+/-- F-C16-1 at document level: `s/a_b.json` and `s/a/b.json` both become `#/components/schemas/s_a_b`; the second cell
+resolves to the first one's content -/
+theorem witness_document_name_collision :
+    doneB hCollision (fun s => NameCollision s && !specB hCollision s) = true := by decide +kernel
+
+/-- F-C16-3: `components.responses.ext: {$ref: ext.json}` becomes `{$ref: #/components/responses/ext}` -/
+theorem witness_self_ref_component :
+    doneB hSelfResponse (fun s => SelfRefComponent hSelfResponse s && !specB hSelfResponse s &&
+      s.refs[0]! == "#/components/responses/ext".toList) = true := by decide +kernel
+
+/-- F-C16-3 for a whole-document link under components.links (a position the loader resolves since cbb0d05) -/
+theorem witness_self_ref_component_link :
+    doneB hSelfLink (fun s => SelfRefComponent hSelfLink s && !specB hSelfLink s) = true := by decide +kernel
+
+/-- F-C16-5: the inline path item of an external callback is entered without the flag; its `#/components/schemas/N8`
+stays and points into the root document -/
+theorem witness_stale_internal_ref_flag_dropped :
+    doneB hFlagDropped (fun s => StaleInternalRef hFlagDropped s && !specB hFlagDropped s && !NameCollision s) = true := by
+  decide +kernel
+
+/-- F-C16-5: an imported schema first reached through an internal reference of a component that sorts earlier -/
+theorem witness_stale_internal_ref_visited_first :
+    doneB hFirstReachedInternally (fun s => StaleInternalRef hFirstReachedInternally s && !specB hFirstReachedInternally s) = true := by
+  decide +kernel
+
+/-- F-C16-7: `parameters[0].examples.e: {$ref: ex.json}` is never visited: the text stays external -/
+theorem witness_unwalked_example :
+    doneB hParamExample (fun s => UnwalkedExample hParamExample s && !specB hParamExample s &&
+      s.refs[3]! == "ex.json".toList) = true := by decide +kernel
+
+/-- F-C16-7: the example reference inside an imported header keeps its `#/components/examples/E` -/
+theorem witness_unwalked_example_imported :
+    doneB hHeaderExampleImported (fun s => UnwalkedExample hHeaderExampleImported s && !specB hHeaderExampleImported s) = true := by
+  decide +kernel
+
+/-- F-C16-8: the oneOf alternatives are renamed, `discriminator.mapping` keeps `dog.json` / `cat.json` -/
+theorem witness_discriminator_mapping :
+    doneB hDiscriminator (fun s => DiscriminatorMapping hDiscriminator s && !specB hDiscriminator s &&
+      !NameCollision s && !SelfRefComponent hDiscriminator s) = true := by decide +kernel
+
+/-- F-C16-9: `paths./x.post.callbacks.cb.{expr}: {$ref: #/paths/~1x}` — the descent ends (1c81ad5) and leaves an
+infinite tree -/
+theorem witness_inlined_cycle :
+    doneB hInlineCycle (fun s => InlinedCycle hInlineCycle s && !specB hInlineCycle s) = true := by decide +kernel
+
+/-- F-C16-10: the loader left `openapi.json#/components/links/L8` without value; InternalizeRefs rewrites it -/
+theorem witness_loader_unresolved :
+    doneB hLoaderUnresolved (fun s => Unresolved hLoaderUnresolved && !specB hLoaderUnresolved s) = true := by decide +kernel
+
+/-- regression of F-C16-2 (cbb0d05, b68fdca): a header reference in an encoding entry — internal … -/
+theorem regression_encoding_header_internal :
+    doneB hEncHeaderInternal (fun s => specB hEncHeaderInternal s && hypsB hEncHeaderInternal s) = true := by decide +kernel
+
+/-- … and external: it is resolved by the loader and internalised as `#/components/headers/h` -/
+theorem regression_encoding_header_external :
+    doneB hEncHeaderExternal (fun s => specB hEncHeaderExternal s && hypsB hEncHeaderExternal s &&
+      s.refs[3]! == "#/components/headers/h".toList) = true := by decide +kernel
+
+/-- regression of F-C16-4 (0a3c233): a whole-document link reference is named after the file it designates -/
+theorem regression_whole_document_link_name :
+    doneB hLinkWholeFile (fun s => specB hLinkWholeFile s && hypsB hLinkWholeFile s &&
+      s.refs[1]! == "#/components/links/common_lin5".toList) = true := by decide +kernel
+
+theorem regression_whole_document_link_resolver :
+    defaultName (rootAt "openapi.json") (wholeFile "links" "./common/lin5.json" "common/lin5.json")
+      = .name "common_lin5".toList false := by decide
+
+/-- regression of F-C16-6 (1c81ad5): a callback that leads back to itself — the descent ends within its fuel and the
+result is right -/
+theorem regression_callback_cycle :
+    doneB hCallbackCycle (fun s => specB hCallbackCycle s && hypsB hCallbackCycle s) = true := by decide +kernel
+
+theorem regression_callback_cycle_via_paths :
+    doneB hCallbackCycleViaPaths (fun s => specB hCallbackCycleViaPaths s && hypsB hCallbackCycleViaPaths s) = true := by
+  decide +kernel
+
+/-- non-vacuity of `spec_holds_partial` / of (i)–(iii): documents with external references of several styles satisfy
+every hypothesis (and components were added, cells rewritten) -/
+example : doneB hWholeAndElement (fun s => hypsB hWholeAndElement s && s.log.any (fun e => e.name?.isSome) &&
+    s.refs[1]! == "#/components/schemas/schemas_record_properties_id".toList) = true := by decide +kernel
+example : doneB hSharedHeader (fun s => hypsB hSharedHeader s && s.refs[1]! == s.refs[4]! &&
+    s.refs[1]! == "#/components/headers/common_h_RL".toList) = true := by decide +kernel
+example : doneB hAbsoluteBackref (fun s => hypsB hAbsoluteBackref s && s.refs[2]! == "#/components/schemas/R".toList) = true := by
+  decide +kernel
+example : doneB hPathItemChain (fun s => hypsB hPathItemChain s && s.visP.length == 3 &&
+    s.refs[0]! == "#/components/responses/r".toList) = true := by decide +kernel
+
+end Witnesses
 
 end KinModel.RefName
